@@ -154,7 +154,11 @@ std::shared_ptr<Link> get_link(const Recipe &r) {
     vorbis_comment_clear(&vc); vorbis_info_clear(&vi);
   }
   g_sim.alloc_active = was;
-  if (g_cache.size() > 600) g_cache.clear();
+  // bound the per-worker footprint (16 workers under ASan share the machine): drop the cache when it holds too many bytes
+  static size_t cache_bytes = 0;
+  size_t lb = 0; for (auto &c : l->pcm) lb += c.size() * sizeof(float); for (auto &pk : l->audio) lb += pk.data.size() + 64; lb = lb * 2 + 4096;
+  if (g_cache.size() > 400 || cache_bytes + lb > (size_t)160 * 1024 * 1024) { g_cache.clear(); cache_bytes = 0; g_stats.inc("corpus.cache_flushes"); }
+  cache_bytes += lb;
   g_cache[k] = l;
   g_stats.inc("corpus.links_encoded");
   return l;
